@@ -286,16 +286,11 @@ class CGMYModel(LevyModel):
     def __init__(self, parameters: CGMYParameters):
         self.parameters = parameters
         cumulant = _CGMYCumulant(drift=0, parameters=parameters)
-        if parameters.y < 0.0:
-            representation = LevyRepresentation.ZERO
-        else:
-            representation = LevyRepresentation.CENTER
-
         triplet = LevyTriplet(
             a=0,
             sigma=0.0,
             nu=_CGMYLevyMeasure(parameters),
-            representation=representation,
+            representation=LevyRepresentation.CENTER,
         )
         super().__init__(
             model_type=ModelType.CGMY, levy_triplet=triplet, cumulant=cumulant
